@@ -72,7 +72,7 @@ CONV_SIG = "idle metaepoch in which every awake active deme ran but re-used the 
 
 # clauses checked on the design model, by property (INVARIANT / PROPERTY names of HMSModel.tla)
 MODEL_CLAUSES = {
-    "C03": ["Inv_C03_TotalIsSumOfLevels"],
+    "C03": ["Inv_C03_TotalIsSumOfLevels", "Inv_C03_BudgetHard", "Inv_C03_TotalEqualsCalls", "Inv_C03_RequestsSplit"],
     "C05": ["Inv_C05_WindDownAtMostOne", "Inv_C05_DoneImpliesGsc", "Inv_C05_CounterEqualsPerformed",
             "Act_C05_NoSproutAfterGsc", "Act_C05_McMonotone"],
     "C06": ["Inv_C06_SteppedExactlyOnce", "Inv_C06_NewbornHasNotRun", "Act_C06_InactiveFrozen", "Act_C06_StopCauses"],
@@ -160,7 +160,10 @@ def _corpus_cov(cs, ms, pid, extra_rule=""):
         cov["model"] = {"module": "MC_HMS.tla", "cfg": ms["cfg"], "distinct_states": ms["distinct"],
                         "generated": ms["generated"], "depth": ms["depth"], "action_coverage": ms["action_coverage"],
                         "clauses": MODEL_CLAUSES.get(pid, []),
-                        "stall_witness_reachable": ms["stall_witness_reachable"]}
+                        "stall_witness_reachable": ms["stall_witness_reachable"],
+                        "witnesses": ms.get("witnesses", {}),
+                        "growth_invariants": ["Inv_G_ClockNotAhead", "Inv_G_ClockInSync", "Inv_G_SinceSproutRawNonNeg",
+                                              "Inv_G_SinceSproutBounded"]}
     return cov
 
 
@@ -227,6 +230,8 @@ def _corpus_prop(pid, need, with_model=True, extra_assume=(), tables=(), minimiz
         vac = _need(cs["stats"], need)
         if ms and ms["untaken_actions"]:
             vac += ["model action never taken: " + a for a in ms["untaken_actions"]]
+        if ms:
+            vac += ms.get("unreachable_witnesses", [])
         cov = _corpus_cov(cs, ms, pid)
         if mz is not None:
             cov["minimize_api"] = {"module": "MinimizeAPI.tla", "states": mz["states"], **mz["stats"], "sample": mz["sample"]}
